@@ -221,3 +221,41 @@ class Timer:
 
     def s(self):
         return time.time() - self.t0
+
+
+# ----------------------------------------------------------------------------------------------------------------------
+# real-thread runs of the library must not be able to hang the check: C07 (termination) is decided here, not by a time-out of
+# whoever called the check
+HUNG = []
+
+
+def bounded(fn, seconds=30.0):
+    """Run `fn()` on a daemon thread.  ("ok", value) / ("raised", exception) / ("hung", stacks of the threads that are still
+    there) after `seconds`.  A hung run is recorded in HUNG: the check then leaves through os._exit."""
+    import sys
+    import threading
+    import traceback
+    box = {}
+
+    def body():
+        try:
+            box["ok"] = fn()
+        except BaseException as e:      # noqa: BLE001
+            box["raised"] = e
+
+    before = set(threading.enumerate())
+    t = threading.Thread(target=body, daemon=True, name="bounded-run")
+    t.start()
+    t.join(seconds)
+    if t.is_alive():
+        frames = sys._current_frames()
+        stacks = []
+        for th in threading.enumerate():
+            if th not in before and th.ident in frames:
+                top = traceback.extract_stack(frames[th.ident])[-3:]
+                stacks.append("%s: %s" % (th.name, " < ".join("%s:%d %s" % (os.path.basename(f.filename), f.lineno, f.name) for f in reversed(top))))
+        HUNG.append(stacks)
+        return "hung", stacks
+    if "raised" in box:
+        return "raised", box["raised"]
+    return "ok", box.get("ok")
